@@ -163,6 +163,9 @@ def trialLoop : List FbEntry → Nat → List (Int × Nat) → M (Nat × List (I
     let ve ← divLoop e.div 65 v 0
     trialLoop t ve.1 (if ve.2 > 0 then fs ++ [((e.p : Int), ve.2)] else fs)
 
+/-- `if v < 0 { v = -v }` -/
+def absI64 (v : Int) : M Int := if v < 0 then chkI64 (-v) else pure v
+
 /-- body of `if sz >= target as u8` up to the construction of `rel`;
 `none` = `continue` (cofactor too large) -/
 def candidate (c : Ctx) (offset : Int) (i : Nat) : M (Option Relation) := do
@@ -171,7 +174,7 @@ def candidate (c : Ctx) (offset : Int) (i : Nat) : M (Option Relation) := do
   let xb ← chkI64 (x + toI64 c.b)
   let m ← chkI64 (xb * x)
   let v ← chkI64 (m - toI64 c.c)
-  let va ← if v < 0 then chkI64 (-v) else pure v
+  let va ← absI64 v
   let cf ← trialLoop c.fb (toU64 va) (if v < 0 then [(-1, 1)] else [])
   if cf.1 ≥ maxlarge then pure none
   else pure (some { x := u.natAbs, cofactor := cf.1, cyclelen := 1, factors := cf.2 })
